@@ -68,24 +68,32 @@ def _index(kind, n):
     return pd.Index(["r2", "r0", "r1", "r3"][:n], dtype=object)
 
 
-def _run(level, check, vec, ikind):
-    """validate lazily; -> (verdict, sorted failure cases [(index, value)], warnings count, exc)"""
+def _isnull(x):
+    import pandas as pd
+
+    return x is None or x is pd.NA or (isinstance(x, float) and math.isnan(x))
+
+
+def _run(level, check, vec, ikind, rep="float64"):
+    """validate lazily; -> (verdict, sorted failure cases [(index, value)], warnings count, exc).
+    rep: physical representation of the vector -- float64 (NaN) or the nullable-extension Int64 (pd.NA)"""
     import pandas as pd
     import pandera as pa
 
     n = len(vec)
     if level == "index" and n == 0:
         return "pass", [], 0, None
-    ser = pd.Series(vec, dtype="float64", index=_index(ikind, n), name="a")
+    dt = float if rep == "float64" else rep
+    ser = pd.Series(vec, dtype=rep, index=_index(ikind, n), name="a")
     if level == "series":
-        schema, obj = pa.SeriesSchema(float, checks=check, nullable=True, name="a"), ser
+        schema, obj = pa.SeriesSchema(dt, checks=check, nullable=True, name="a"), ser
     elif level == "column":
-        schema, obj = pa.Column(float, checks=check, nullable=True, name="a"), ser.to_frame()
+        schema, obj = pa.Column(dt, checks=check, nullable=True, name="a"), ser.to_frame()
     elif level == "frame":
-        schema, obj = pa.DataFrameSchema({"a": pa.Column(float, nullable=True)}, checks=check), ser.to_frame()
+        schema, obj = pa.DataFrameSchema({"a": pa.Column(dt, nullable=True)}, checks=check), ser.to_frame()
     else:  # index level: the vector is the index
-        obj = pd.DataFrame({"z": pd.Series(list(range(n)), dtype="int64").values}, index=pd.Index(vec, dtype="float64", name="a"))
-        schema = pa.DataFrameSchema({"z": pa.Column(int)}, index=pa.Index(float, checks=check, nullable=True, name="a"))
+        obj = pd.DataFrame({"z": pd.Series(list(range(n)), dtype="int64").values}, index=pd.Index(vec, dtype=rep, name="a"))
+        schema = pa.DataFrameSchema({"z": pa.Column(int)}, index=pa.Index(dt, checks=check, nullable=True, name="a"))
     with warnings.catch_warnings(record=True) as w:
         warnings.simplefilter("always")
         try:
@@ -98,7 +106,7 @@ def _run(level, check, vec, ikind):
                 v = r["failure_case"]
                 if isinstance(v, dict):
                     v = list(v.values())[0]
-                rows.append((repr(r["index"]), "null" if (v is None or (isinstance(v, float) and math.isnan(v))) else repr(v)))
+                rows.append((repr(r["index"]), "null" if _isnull(v) else repr(v)))
             reasons = sorted({x.reason_code.name for x in e.schema_errors})
             return "fail:" + "+".join(reasons), sorted(rows), sum(1 for x in w if issubclass(x.category, pa.errors.SchemaWarning)), None
         except Exception as e:  # noqa
@@ -134,6 +142,10 @@ def _rel_ignore_na(level, maxlen):
 
     viol, n = {}, 0
     for pname, f in PREDS.items():
+      for rep in ("float64", "Int64"):
+        if rep == "Int64" and level == "index":
+            continue
+        lv = level if rep == "float64" else f"{level}[Int64]"
         for vec in _vectors(maxlen):
             if level == "frame":
                 continue
@@ -142,17 +154,20 @@ def _rel_ignore_na(level, maxlen):
 
             def rec(x, f=f, seen=seen):
                 seen.append(x)
-                return f(x) if not (isinstance(x, float) and math.isnan(x)) else False
+                return f(x) if not _isnull(x) else False
 
-            r = _run(level, pa.Check(rec, element_wise=True, ignore_na=True), vec, "default")
-            if any(isinstance(x, float) and math.isnan(x) for x in seen):
-                viol.setdefault(("ignore_na.function_never_sees_null", f"{level}:element_wise"), f"vec={vec} seen={seen}")
+            r = _run(level, pa.Check(rec, element_wise=True, ignore_na=True), vec, "default", rep)
+            if r[0].startswith("exc:"):
+                viol.setdefault(("ignore_na.runs", f"{lv}:{r[0]}"), f"vec={vec}: {r[3]!r}")
+                continue
+            if any(_isnull(x) for x in seen):
+                viol.setdefault(("ignore_na.function_never_sees_null", f"{lv}:element_wise"), f"vec={vec} seen={seen}")
             if any(v == "null" for _i, v in r[1]):
-                viol.setdefault(("ignore_na.nulls_never_fail", f"{level}:element_wise:{pname}"), f"vec={vec} failure_cases={r[1]}")
+                viol.setdefault(("ignore_na.nulls_never_fail", f"{lv}:element_wise:{pname}"), f"vec={vec} failure_cases={r[1]}")
             nn = [v for v in vec if v is not None]
             want_fail = any(not f(float(v)) for v in nn)
             if (r[0] != "pass") != want_fail and not (level == "index" and not vec):
-                viol.setdefault(("ignore_na.verdict_is_that_of_non_null_elements", f"{level}:{pname}:{r[0]}"), f"vec={vec}")
+                viol.setdefault(("ignore_na.verdict_is_that_of_non_null_elements", f"{lv}:{pname}:{r[0]}"), f"vec={vec}")
             # vectorised: the series handed to the function has no nulls
             got = []
 
@@ -160,11 +175,11 @@ def _rel_ignore_na(level, maxlen):
                 got.append(int(s.isna().sum()))
                 return s.map(f)
 
-            r2 = _run(level, pa.Check(vrec, ignore_na=True), vec, "default")
+            r2 = _run(level, pa.Check(vrec, ignore_na=True), vec, "default", rep)
             if any(g > 0 for g in got):
-                viol.setdefault(("ignore_na.function_never_sees_null", f"{level}:vectorised"), f"vec={vec} nulls_seen={got}")
+                viol.setdefault(("ignore_na.function_never_sees_null", f"{lv}:vectorised"), f"vec={vec} nulls_seen={got}")
             if any(v == "null" for _i, v in r2[1]):
-                viol.setdefault(("ignore_na.nulls_never_fail", f"{level}:vectorised:{pname}"), f"vec={vec} failure_cases={r2[1]}")
+                viol.setdefault(("ignore_na.nulls_never_fail", f"{lv}:vectorised:{pname}"), f"vec={vec} failure_cases={r2[1]}")
             # ignore_na=False: the function does see the nulls
             if None in vec:
                 seen3 = []
@@ -173,9 +188,9 @@ def _rel_ignore_na(level, maxlen):
                     seen3.append(x)
                     return True
 
-                _run(level, pa.Check(rec3, element_wise=True, ignore_na=False), vec, "default")
-                if not any(isinstance(x, float) and math.isnan(x) for x in seen3):
-                    viol.setdefault(("ignore_na.false_shows_nulls", f"{level}:element_wise"), f"vec={vec} seen={seen3}")
+                _run(level, pa.Check(rec3, element_wise=True, ignore_na=False), vec, "default", rep)
+                if not any(_isnull(x) for x in seen3):
+                    viol.setdefault(("ignore_na.false_shows_nulls", f"{lv}:element_wise"), f"vec={vec} seen={seen3}")
     return viol, n
 
 
